@@ -30,6 +30,7 @@ void harness_shape(void)
 	__CPROVER_assume(dispatch(&O, adds) == 0 && dispatch(&B, fetch) == 0);
 	int expect_close = 0;      /* the message is not JSON-RPC at all: costs the sender its connection */
 	int has_id = 1;            /* the message carries the usable id 9 */
+	struct peer *sender = &A;   /* who sends the hostile message (B, the subscriber, for messages about its own fetch) */
 	int lenient = 0;           /* the daemon tolerates this shape: the request is carried out as if the odd member were absent */
 	scn_build_begin();
 	cJSON *req;
@@ -120,10 +121,14 @@ void harness_shape(void)
 	req = obj2("result", mknumber(v), "id", obj1("x", mknumber(1))); has_id = 0; expect_close = 1;
 #elif SHAPE == 41   /* a response whose id is missing */
 	req = obj1("error", mknumber(v)); has_id = 0; expect_close = 1;
+#elif SHAPE == 42   /* B holds the fetch with the STRING id "fb" and sends unfetch with a NUMERIC id: ids of different JSON types are compared */
+	req = mkreq("unfetch", 9, obj1("id", mknumber(v))); sender = &B;
+#elif SHAPE == 43   /* ... and a second fetch with a numeric id whose parameters are malformed */
+	req = mkreq("fetch", 9, obj2("id", mknumber(v), "path", mknumber(1))); sender = &B;
 #endif
 	scn_build_end();
 	reset_log();
-	int r = dispatch(&A, req);
+	int r = dispatch(sender, req);
 	/* a request object with a usable id must be answered on this connection (C02), so the connection is kept. For
 	   everything else the properties only say that it costs at most the sender's connection: keeping or closing are
 	   both fine (expect_close records what the daemon does today; it is a reachability witness, not a demand) */
@@ -132,8 +137,8 @@ void harness_shape(void)
 	if (r == -1) REACH("closed"); else REACH("kept");
 	(void)expect_close;
 	/* at most one response, to the sender only, and it is an error carrying the id when there was a usable one */
-	CHECK(count_responses(&A) <= 1 && count_responses(&O) == 0 && count_responses(&B) == 0, "C02.at_most_one_response_and_only_to_the_sender");
-	struct sent *resp = last_of(&A, K_RESPONSE);
+	CHECK(count_responses(sender) <= 1 && count_responses(&O) == 0 && count_responses(&A) + count_responses(&B) == count_responses(sender), "C02.at_most_one_response_and_only_to_the_sender");
+	struct sent *resp = last_of(sender, K_RESPONSE);
 	struct element *es = element_table_get("s");
 	CHECK(es && es->peer == &O && es->value && es->value->valueint == 5, "C04.malformed_request_leaves_other_elements_alone");
 	CHECK(count_kind(&O, K_ROUTED) + count_kind(&A, K_ROUTED) + count_kind(&B, K_ROUTED) == 0 && timers_alive() == 0, "C03.malformed_request_routes_nothing");
